@@ -308,7 +308,7 @@ prop("C16", "c16",
      level="Randomised generated search over key stores x claims x TTLs with an independent verifier, plus a race-detector "
            "stress of issuance vs reload; bounded exploration.",
      note="Trusted: Go standard library crypto; the race detector for the concurrent part.",
-     technique="property-based testing with reference verifier + -race stress with invariant over every issued token + generated schedules on an instrumented signer (with and without token cache)")
+     technique="property-based testing with reference verifier + -race stress with invariant over every issued token + generated schedules on an instrumented signer (with and without token cache) + metamorphic unit (the published key set is invariant under collections of the certificate metrics, chains made at run time)")
 
 prop("C07", "c07",
      "Engine A (owned schedules): repository_impl.go and radixtree/tree.go of the current tree are instrumented "
@@ -422,7 +422,7 @@ prop("C19", "c19",
      level="Randomised structured mutation plus bounded exhaustive truncation of reloadable and remote inputs against the "
            "entry points the watcher, the providers and the servers use; bounded exploration.",
      note="Trusted: Go's net/http server for the raw TCP part; the harness' recover() around entry points.",
-     technique="property-based testing / structured fuzzing: mutation grammar + exhaustive truncation, no-panic and still-serving oracle")
+     technique="property-based testing / structured fuzzing: mutation grammar + exhaustive truncation, no-panic and still-serving oracle (rule sets, key stores, trust stores, credential files, remote answers, raw requests)")
 
 prop("C20", "c20",
      "Valid configurations are generated as trees from a grammar over the documented options (log, tracing, metrics, "
